@@ -885,6 +885,8 @@ BOUNDED_SHAPES = [
     'select top 3 a.name order by a.qty desc', 'select top 2 * where a.city != "x"', 'select top 2 a.name, b.zone join b on a.city == b.town', 'select a.city, COUNT(*) group by a.city limit 2',
     'select top 4 distinct a.city order by a.city', 'select top 1 distinct count a.city', 'select distinct a.qty limit 1', 'select top 0 a.name', 'select top 5 a.name, UNNEST(a.name.split("n"))',
     'select top 2 a.name where a.qty == "3"', 'select ARRAY_AGG(a.name) limit 1', 'update a.qty = "0" where NR > 2',
+    # the record numbers of the two tables: the header line of a file is not a record
+    'select a.name, bNR, b.zone join b on a.city == b.town', 'select NR, a.name, b.zone join b on NR == bNR', 'select a.name, b.zone left join b on NR == bNR where bNR is None or bNR < 3',
 ]
 
 
@@ -942,7 +944,7 @@ def bounded_leg(ns, res, spec, d, rng):
                 rows, hdr = out.values.tolist(), [str(c) for c in out.columns]
             except Exception as e:
                 err = '%s: %s' % (util.error_class(e), str(e)[:100])
-            if exp_rows or err is not None:
+            if (exp_rows or err is not None) and not any(v is None for r in ref['rows'] for v in r):      # (a dataframe has its own notion of a missing value)
                 cmp('pandas', rows, hdr if exp_header else None, err)
             inp = os.path.join(d, 'bounded_in.csv')
             with open(inp, 'w', encoding='utf-8', newline='') as f:
@@ -973,7 +975,7 @@ def plan(tier, seed):
 def summarize(tier, seed, m):
     fe = {k[10:]: v for k, v in m['counters'].items() if k.startswith('front_end:')}
     return {
-        'rule': 'rectangular string tables (0-5 rows, 1-4 columns, cells with spaces, quotes, commas, non-ASCII, empty; one case in six with line breaks inside cells, run through the quoted_rfc dialect; duplicated column names in 15% of the headed cases; one case in five (quoted policies) written the way a spreadsheet exports it - a UTF-8 byte order mark and every field quoted; one case in eleven with records shorter or longer than the first, run through the front-ends that can hold such a table; no tabs) with and without header; type-agnostic structured queries (select / where / order / distinct / distinct count / top / inner join / update / except / aggregates) rotating systematically over clause combinations; a case whose reference run fails (runtime errors, and a column referred to as a.NAME where the header says name - one headed case in thirteen) must fail through every entry point as well; each executed through query_table (reference) and through 8 entry points: rbql.query with user-written iterator / writer / registry classes, query_csv, CLI file -> file and stdin -> stdout in the three output formats, query_pandas_dataframe, query_sqlite_to_csv, CLI sqlite (with --input, and without it when the database holds one table); every second language-neutral case also through the entry points of the JS package - query_table over arrays as its reference, query_csv (stream and bulk reading) and the node command line (file -> file, file -> stdout) over the same files: same table and header, exit 0, nothing but the table on stdout; plus a bounded-shapes leg: 17 queries combining TOP / LIMIT with DISTINCT, DISTINCT COUNT, aggregates, ORDER BY, WHERE, JOIN and UNNEST over tables of 5-14 records (duplicates up front) through sqlite (library and command line), pandas and query_csv against query_table; plus failing queries (parsing, execution, IO, syntax) x {file, stdout, sqlite} for exit status / Error [type] on stderr, and warning routing; plus an options leg over the parameters of the CSV entry points, each compared with query_table over the same data: comment lines (8 prefixes, before the header, between records, at the end, in the join file too) with comment_prefix / --comment-prefix, user variables and functions from an init source (user_init_code, --init-source-file, ~/.rbql_init_source.py under a private HOME; CLI sqlite too), latin-1 files with cells over the whole 0x80-0xff range and --encoding latin-1, a caller flag that says the opposite of what the files are, put right by WITH (header) / WITH (noheader) in the query, and the policy the command line picks when --policy is left out (quoted for , and ; / whitespace for a space / simple otherwise) with a cell whose CSV form depends on the policy. distinct_nontrivial = distinct (query, tables) with a non-empty result + failing scenarios.',
+        'rule': 'rectangular string tables (0-5 rows, 1-4 columns, cells with spaces, quotes, commas, non-ASCII, empty; one case in six with line breaks inside cells, run through the quoted_rfc dialect; duplicated column names in 15% of the headed cases; one case in five (quoted policies) written the way a spreadsheet exports it - a UTF-8 byte order mark and every field quoted; one case in eleven with records shorter or longer than the first, run through the front-ends that can hold such a table; no tabs) with and without header; type-agnostic structured queries (select / where / order / distinct / distinct count / top / inner join / update / except / aggregates) rotating systematically over clause combinations; a case whose reference run fails (runtime errors, and a column referred to as a.NAME where the header says name - one headed case in thirteen) must fail through every entry point as well; each executed through query_table (reference) and through 8 entry points: rbql.query with user-written iterator / writer / registry classes, query_csv, CLI file -> file and stdin -> stdout in the three output formats, query_pandas_dataframe, query_sqlite_to_csv, CLI sqlite (with --input, and without it when the database holds one table); every second language-neutral case also through the entry points of the JS package - query_table over arrays as its reference, query_csv (stream and bulk reading) and the node command line (file -> file, file -> stdout) over the same files: same table and header, exit 0, nothing but the table on stdout; plus a bounded-shapes leg: 20 queries (three of them on the record numbers NR / bNR of the two tables) combining TOP / LIMIT with DISTINCT, DISTINCT COUNT, aggregates, ORDER BY, WHERE, JOIN and UNNEST over tables of 5-14 records (duplicates up front) through sqlite (library and command line), pandas and query_csv against query_table; plus failing queries (parsing, execution, IO, syntax) x {file, stdout, sqlite} for exit status / Error [type] on stderr, and warning routing; plus an options leg over the parameters of the CSV entry points, each compared with query_table over the same data: comment lines (8 prefixes, before the header, between records, at the end, in the join file too) with comment_prefix / --comment-prefix, user variables and functions from an init source (user_init_code, --init-source-file, ~/.rbql_init_source.py under a private HOME; CLI sqlite too), latin-1 files with cells over the whole 0x80-0xff range and --encoding latin-1, a caller flag that says the opposite of what the files are, put right by WITH (header) / WITH (noheader) in the query, and the policy the command line picks when --policy is left out (quoted for , and ; / whitespace for a space / simple otherwise) with a cell whose CSV form depends on the policy. distinct_nontrivial = distinct (query, tables) with a non-empty result + failing scenarios.',
         'required': ['cases', 'bounded_front_end:sqlite', 'bounded_front_end:cli-sqlite', 'bounded_front_end:pandas', 'bounded_front_end:query_csv', 'bom_quote_all_cases', 'multiline_cases', 'ragged_cases', 'failing_reference_cases', 'miscased_column_reference_cases', 'failing_reference_front_end:sqlite', 'failing_reference_front_end:pandas', 'failing_reference_front_end:query_csv', 'front_end:query+user-classes', 'front_end:query_csv', 'front_end:pandas', 'front_end:sqlite', 'front_end:cli-sqlite', 'cli_sqlite_default_table_runs', 'js_entry_point_cases', 'front_end:js-query_csv-stream', 'front_end:js-query_csv-bulk', 'front_end:js-cli-file', 'front_end:js-cli-stdout', 'front_end:cli-file-tsv', 'front_end:cli-file-csv', 'front_end:cli-file-input', 'front_end:cli-stdin-stdout-csv', 'cli_failing_runs', 'cli_usage_error_runs', 'cli_failing_runs_empty_message', 'cli_warning_runs', 'option_cases:comment', 'option_cases:init', 'option_cases:latin1', 'option_cases:defpolicy', 'option_cases:withmod', 'front_end:cli-file+comment', 'front_end:cli-stdin+init', 'front_end:cli-sqlite+init', 'front_end:query_csv+latin1', 'front_end:cli-file+defpolicy'],
         'extra': {'front_end_comparisons': fe},
         'assumptions': ['query_table is the reference (pinned by C01-C05, C07)', 'types are not compared across back ends (CSV and pandas stringify): cells are compared after the stringification every CSV sink applies', 'scratch files are named in.csv / jn.csv / in_<n>.csv / jn_<n>.csv in a directory c<n> per case: a path containing an a./b. token under a header is the C08 known finding, not a front-end difference'],
